@@ -54,6 +54,9 @@ def gen(tier, seed):
               "    return order_lattice(ia, ib, k)", ""]
     conds.append({"fn": "h_order_lattice", "what": "< <= > >= between quantities of the same units, and between a quantity and a plain number in either operand order, are exactly the comparisons of the magnitudes on the 16-point lattice - INCLUDING equal operands (the symbolic comparison legs do not judge ties)",
                   "sig": "c05-order-lattice", "structure": "lattice", "enumerate": True, "viol": "an ordering comparison involving a quantity disagrees with the comparison of the magnitudes (e.g. at equality)"})
+    lines += ["def h_op_sequence(k: int, r: int) -> bool:", '    """', "    pre: 0 <= k <= 29 and 0 <= r <= 7", "    post: _", '    """', "    return op_sequence(k, r)", ""]
+    conds.append({"fn": "h_op_sequence", "what": "sequences of + - * / % and comparisons on the same two operands stored in different unit systems, evaluated one after the other in ONE process (8 rotations of the order x 6 system pairs x 5 dimensions): every result is the SI arithmetic, independent of what was computed before",
+                  "sig": "c05-op-sequence", "structure": "sequence", "enumerate": True, "viol": "the result of an operation on quantities depends on which operations were evaluated earlier in the process"})
     # error clauses: symbolic dimension vectors
     for op in ("add", "sub", "mod", "lt", "le", "gt", "ge"):
         fn = "h_mismatch_%s" % op
